@@ -34,6 +34,10 @@ class Pools:
             vid = add("viol", name, c2, f"viol:{seed}:{i}:{op}")
             if op in workload.COUNT_PRESERVING and nst0 is not None:
                 self.meta[vid]["nstmts"] = nst0
+            if op.rstrip("0123456789") in ("commentrun_brace", "comment_run", "long_preamble", "comment_in_func_late", "upper_decl", "trailing_space"):
+                self.meta[vid]["braces_known"] = True     # validated: these edits leave the brace structure what the generator emitted
+            if op.startswith("comment_run") and nst0 is not None:
+                self.meta[vid]["nstmts"] = nst0 + int(op[len("comment_run"):])      # each filler line is one more statement
         # damaged members: token-prefix cuts of corpus/generated files (what a short read delivers)
         bases = [fid for fid in self.files if self.meta[fid]["group"] in ("corpus", "gen", "viol")]
         for i in range(n_cut):
